@@ -59,6 +59,11 @@ class GroupSum:
     def sym_binop(self, it, op, a, b):
         if op == "+" and isinstance(a, GroupSum) and isinstance(b, GroupSum) and a.b is b.b:
             return GroupSum(a.b, it.binop("+", a.val, b.val))
+        from pyvc.arrays import is_scalar
+        if op == "*" and isinstance(a, GroupSum) and is_scalar(b):
+            return GroupSum(a.b, it.binop("*", a.val, b))       # a scalar factor commutes with the group sums
+        if op == "*" and isinstance(b, GroupSum) and is_scalar(a):
+            return GroupSum(b.b, it.binop("*", a, b.val))
         return NotImplemented
 
     def sym_unop(self, it, op):
